@@ -105,6 +105,23 @@ def envClause (cfg : Cfg) (_req : Req) (m : Msg) (v : Vaa) : String :=
     s!"envelope-emitter VAA emitter {v.body.emitterChain}/{hexOrDash v.body.emitter} is not the configured governance emitter {cfg.chain}/{hexOrDash cfg.emitter}"
   else s!"envelope-field version/set index/signatures/timestamp/nonce/sequence differ from the request: {showVaa v}"
 
+/-- Which part of the request the parser does not recover (the stable key of a finding). -/
+def lossyClause (gsi : Nat) (pl : Payload) (p : Bytes) : String :=
+  match pl with
+  | .destroy c _ =>
+    match Ral.parseDestroy p with
+    | some (c', _) => if c' != c then "destroy-emitter-chain-lossy" else "destroy-sequences-lossy"
+    | none => "destroy-sequences-lossy"
+  | .guardianSet _ =>
+    match Ral.parseGuardianSet p with
+    | some (i, _) => if i != gsi + 1 then "guardian-set-index-lossy" else "guardian-set-keys-lossy"
+    | none => "guardian-set-keys-lossy"
+  | .registerChain _ c _ =>
+    match Ral.parseRegisterChain (unbe (p.take 32)) p with
+    | some (c', _) => if c' != c then "register-chain-id-lossy" else "register-chain-lossy"
+    | none => "register-chain-lossy"
+  | _ => s!"{kindName pl}-lossy"
+
 /-- Spec on the implementation's own VAAs, message by message; `none` = holds. -/
 def specSent (cfg : Cfg) (req : Req) : List Msg → List Vaa → Option String
   | _, [] => none
@@ -112,7 +129,7 @@ def specSent (cfg : Cfg) (req : Req) : List Msg → List Vaa → Option String
   | m :: ms, v :: vs =>
     if !envOk cfg req m v then some (envClause cfg req m v)
     else if !specOk req.currentSetIndex m.payload v.body.payload then
-      some s!"{kindName m.payload}-lossy accepted request ({showPayload m.payload}, current_set_index={req.currentSetIndex}) is not what the contract parser recovers from payload {hexOrDash (v.body.payload.take 80)} ({v.body.payload.length} bytes)"
+      some s!"{lossyClause req.currentSetIndex m.payload v.body.payload} accepted request ({showPayload m.payload}, current_set_index={req.currentSetIndex}) is not what the contract parser recovers from payload {hexOrDash (v.body.payload.take 80)} ({v.body.payload.length} bytes)"
     else specSent cfg req ms vs
 
 structure St where
